@@ -956,6 +956,15 @@ class SymEval:
             idx = tuple(idx[0].parts)
             outer = True
         idx = list(idx)
+        if any(x is Ellipsis for x in idx):
+            k = [i for i, x in enumerate(idx) if x is Ellipsis]
+            if len(k) > 1:
+                raise Unsupported('two ellipses')
+            total = len(arr.shape) + (1 if arr.sample else 0)
+            fill = total - (len(idx) - 1)
+            if fill < 0:
+                raise Unsupported('too many indices')
+            idx[k[0]:k[0] + 1] = [slice(None, None, None)] * fill
         if arr.sample:
             if not idx:
                 raise Unsupported('empty index')
@@ -1339,6 +1348,13 @@ class SymEval:
                         pass
                 off += x.shape[ax]
             return out
+        if q in ('numpy.stack', 'numpy.column_stack') and isinstance(args[0], (list, tuple)) and \
+                args[0] and all(isinstance(x, (Rat, int, float)) and not isinstance(x, bool)
+                                for x in args[0]):
+            ax = kwargs.get('axis', args[1] if len(args) > 1 else 0)
+            if q == 'numpy.column_stack' or ax in (-1, 0, 1):
+                # scalars of the generic sample stacked along the last (component) axis
+                return SArray((len(args[0]),), {(i,): self.rat(x) for i, x in enumerate(args[0])})
         if q == 'numpy.hstack':
             seq = args[0]
             parts = []
